@@ -294,6 +294,7 @@ func (e *Engine) verifyFuncInstance(rep *FuncReport, fn *ssa.Function, fc *contr
 			}
 		}
 		for _, in := range insts {
+			r.goalTag = normTag(in.suffix)
 			cs := in.en.evalGoalParts(cl.Expr)
 			for j, cj := range cs {
 				nm := fmt.Sprintf("ensures[%s%s", label, in.suffix)
@@ -303,6 +304,7 @@ func (e *Engine) verifyFuncInstance(rep *FuncReport, fn *ssa.Function, fc *contr
 				nm += "]"
 				r.oblige("ensures", nm, exit.guard, cj, "ensures "+cl.Text)
 			}
+			r.goalTag = ""
 		}
 	}
 }
